@@ -59,6 +59,7 @@ fn choices_json(c: &[u8]) -> Value {
 }
 
 fn block(acc: &mut Acc, base_seed: u64, lo: u64, hi: u64, det_n: u64, want_samples: usize) {
+    simcore::isolate::trace_run(lo);
     let plans: Arc<Vec<Plan>> = Arc::new((lo..hi).map(|i| plan(rng::mix(base_seed, rng::domain(PROP), i))).collect());
     let outs = exec::execute_block(&plans);
     for (k, out) in outs.into_iter().enumerate() {
@@ -301,7 +302,15 @@ fn do_replay(path: &str) -> i32 {
         .collect();
     let want_sig = v["signature"].as_str().unwrap_or("");
     let want_hash = v["event_hash"].as_str().unwrap_or("");
-    let (out, verdict) = replay_exec(&sc, &schedule);
+    let (out, verdict) = if v["schedule_from_seed"].as_bool() == Some(true) {
+        // crash replays carry no recorded decisions: re-draw them exactly as the batch did
+        let p = plan(v["run_seed"].as_u64().unwrap_or(0));
+        let out = execute(&p.scenario, p.mode.clone(), p.sched_seed);
+        let v = judge(&p.scenario, &out);
+        (out, v)
+    } else {
+        replay_exec(&sc, &schedule)
+    };
     let eh = format!("{:016x}", event_hash(&out));
     match verdict {
         Verdict::Violated(sig, detail) => {
@@ -314,7 +323,7 @@ fn do_replay(path: &str) -> i32 {
                     r.invoke, r.ret, r.task, r.phase, r.call, r.res
                 );
             }
-            if sig == want_sig && eh == want_hash {
+            if sig == want_sig && (eh == want_hash || want_hash.is_empty()) {
                 println!("VIOLATION property={PROP} replay={path}");
                 1
             } else {
@@ -351,11 +360,29 @@ fn main() {
     if prop != PROP {
         harness_error(&format!("sim_sched serves {PROP} only, got {prop}"));
     }
+    let base_seed = args.num("--seed").unwrap_or_else(simcore::seed_from_env);
+    let emit = |idx: u64, sig: &str| -> String {
+        let run_seed = rng::mix(base_seed, rng::domain(PROP), idx);
+        let p = plan(run_seed);
+        // no execution here: record the scenario and the scheduling policy; the replay re-draws
+        // the same decisions from (mode, sched_seed)
+        let path = format!("{}/replays/{PROP}-{}-{}.json", simcore::verif_dir(), base_seed, idx);
+        simcore::write_json_atomic(
+            &path,
+            &json!({"property": PROP, "engine": "sim_sched (shuttle 0.9.3 runtime + harness scheduler)", "base_seed": base_seed, "run_index": idx,
+                    "run_seed": run_seed, "scenario": p.scenario.to_json(), "schedule": [], "schedule_from_seed": true,
+                    "signature": sig, "event_hash": "",
+                    "detail": "the process died inside a library call while executing this scenario (not minimised)"}),
+        );
+        path
+    };
+    if let simcore::isolate::Supervised::Done(rc) = simcore::isolate::supervise(PROP, &args, emit) {
+        std::process::exit(rc);
+    }
     if let Some(path) = args.value("--replay") {
         std::process::exit(do_replay(path));
     }
     let tier = simcore::tier_from(&args);
-    let base_seed = args.num("--seed").unwrap_or_else(simcore::seed_from_env);
     let workers = args.num("--workers").map(|w| w as usize).unwrap_or_else(simcore::par::workers_from_env);
     let runs = args.num("--runs").unwrap_or(match tier {
         Tier::Quick => 1_000_000,
@@ -396,7 +423,7 @@ fn main() {
     let accs = simcore::par::run_batch_blocks(
         runs,
         workers,
-        256,
+        if simcore::isolate::tracing() { 1 } else { 256 },
         |_| Acc::default(),
         |acc: &mut Acc, lo, hi, _stop: &AtomicBool| {
             block(acc, base_seed, lo, hi, det_n, 3);
